@@ -18,7 +18,7 @@ func init() { register(&Spec{ID: "C20", Targets: []load.Target{load.Linux}, Run:
 
 func runC20(c *core.Ctx) {
 	runFixtures(c, "drop", "walkloop")
-	c.Explain("Whether the conformance suite fails on each of ~60 deviant file systems is a statement about executions (mutation adequacy) and cannot be decided without running the suite, which this family may not do. Decided are properties of the suite's own code whose violation makes it blind: (R20.1) every exported scenario func Test*(testing.TB, FSOptions) of package fstest is registered in the FS or File runner; (R20.2) every exported internal/assert helper and every FSOptions.assert* method returning bool reports through tb.Error/Errorf/Fatal* (or a helper that does) on every path that returns false, and has at least one such path; (R20.3) mode comparisons keep all bits when Constraints.FileModeMask is its zero value ('disables checks on the specified bits, defaults to checking all'); (R20.4) the final-tree comparison is an equality, not a subset test; (R20.5) the skip data is collected after the parallel subtests have run; (R20.6) package fstest writes no package-level variable outside init (the verdict depends only on the FS under test); (R20.7) no subtest closure that goes parallel captures a loop variable that is one cell shared by all iterations under the module's language version (< go1.22) — such subtests all run against the last table row and the other rows are never checked; (R20.8) the helpers comparing an error with an expected *PathError/*LinkError type-assert the error value itself and do not search its chain with errors.As; (R20.9) the harness that runs tasks concurrently starts all goroutines before it waits (no WaitGroup.Wait inside the starting loop); (R20.10, contradiction rule) in every subtest closure, if the error of an operation of the library reaches an assertion on one path it does so on every path from the operation to the end of the subtest (skips excepted). The property itself (acceptance of the references, rejection of deviants) is (R20.11) no by-name listing is sorted before it is asserted on; (R20.12) errors.Is is applied in one direction, observed against expected; (R20.13) a subset assertion between two observed listings has its converse or a distinctness assertion. (R20.14) every return of the tree comparison follows the walk; (R20.15) every TestFile<Op> scenario reaches <Op> on a file handle; (R20.16) the tree walk records every listed entry. NOT claimed.")
+	c.Explain("Whether the conformance suite fails on each of ~60 deviant file systems is a statement about executions (mutation adequacy) and cannot be decided without running the suite, which this family may not do. Decided are properties of the suite's own code whose violation makes it blind: (R20.1) every exported scenario func Test*(testing.TB, FSOptions) of package fstest is registered in the FS or File runner; (R20.2) every exported internal/assert helper and every FSOptions.assert* method returning bool reports through tb.Error/Errorf/Fatal* (or a helper that does) on every path that returns false, and has at least one such path; (R20.3) mode comparisons keep all bits when Constraints.FileModeMask is its zero value ('disables checks on the specified bits, defaults to checking all'); (R20.4) the final-tree comparison is an equality, not a subset test; (R20.5) the skip data is collected after the parallel subtests have run; (R20.6) package fstest writes no package-level variable outside init (the verdict depends only on the FS under test); (R20.7) no subtest closure that goes parallel captures a loop variable that is one cell shared by all iterations under the module's language version (< go1.22) — such subtests all run against the last table row and the other rows are never checked; (R20.8) the helpers comparing an error with an expected *PathError/*LinkError type-assert the error value itself and do not search its chain with errors.As; (R20.9) the harness that runs tasks concurrently starts all goroutines before it waits (no WaitGroup.Wait inside the starting loop); (R20.10, contradiction rule) in every subtest closure, if the error of an operation of the library reaches an assertion on one path it does so on every path from the operation to the end of the subtest (skips excepted). The property itself (acceptance of the references, rejection of deviants) is (R20.11) no by-name listing is sorted before it is asserted on; (R20.12) errors.Is is applied in one direction, observed against expected; (R20.13) a subset assertion between two observed listings has its converse or a distinctness assertion. (R20.14) every return of the tree comparison follows the walk; (R20.15) every TestFile<Op> scenario reaches <Op> on a file handle; (R20.16) the tree walk records every listed entry; (R20.17) functions that skip consult no sentinel but ErrNotImplemented; (R20.18) read-back buffers are freshly made. NOT claimed.")
 	c.Assume("testing.TB.Error/Errorf/Fatal/Fatalf/FailNow/Fail mark the test failed")
 	c.RuleDoc("R20.1", "every scenario is registered")
 	c.RuleDoc("R20.2", "assertion helpers can fail and always report")
@@ -30,6 +30,8 @@ func runC20(c *core.Ctx) {
 	c.RuleDoc("R20.9", "goroutines started in a loop are awaited after the loop")
 	c.RuleDoc("R20.11", "the suite never sorts a by-name listing before asserting on it")
 	c.RuleDoc("R20.16", "the tree walk records every listed entry: no iteration of its loop ends without the entry in the observed map")
+	c.RuleDoc("R20.17", "a scenario is skipped for ErrNotImplemented only")
+	c.RuleDoc("R20.18", "bytes read back from the file system under test land in a fresh buffer, never in one that already holds the expected bytes")
 	c.RuleDoc("R20.14", "the tree comparison walks the file system under test on every path")
 	c.RuleDoc("R20.15", "every TestFile<Op> scenario calls <Op> on a file handle")
 	c.RuleDoc("R20.13", "a subset assertion between two observed listings is made in both directions")
@@ -57,6 +59,8 @@ func runC20(c *core.Ctx) {
 		r20SubsetBothWays(c, p)
 		r20WalkOnEveryPath(c, p)
 		r20WalkRecordsEveryEntry(c, p)
+		r20SkipOnlyNotImplemented(c, p)
+		r20ReadIntoFreshBuffers(c, p)
 		r20FileScenarioCallsFileMethod(c, p)
 		r20ErrorAssertedOnEveryPath(c, p)
 	}
@@ -75,6 +79,8 @@ func runC20(c *core.Ctx) {
 	c.Floor("R20.13", 1)
 	c.Floor("R20.14", 1)
 	c.Floor("R20.16", 1)
+	c.Floor("R20.17", 1)
+	c.Floor("R20.18", 10)
 	c.Floor("R20.15", 8)
 }
 
@@ -1153,4 +1159,80 @@ func lastPos(b *ssa.BasicBlock) token.Pos {
 		}
 	}
 	return token.NoPos
+}
+
+// r20SkipOnlyNotImplemented (R20.17): a function of the suite that can skip the running subtest (tb.Skip*) consults,
+// with errors.Is, no sentinel other than ErrNotImplemented. Every scenario calls the skip helper right before its
+// error-kind assertion: a second accepted sentinel ("some platforms answer ENOTSUP") turns that wrong error kind into a
+// skipped — passing — subtest.
+func r20SkipOnlyNotImplemented(c *core.Ctx, p *load.Program) {
+	n := 0
+	for _, fn := range pkgFuncs(p, "fstest") {
+		skips := false
+		ssax.Instrs(fn, func(ins ssa.Instruction) {
+			if ci, ok := ins.(ssa.CallInstruction); ok {
+				if m := ssax.InvokeMethod(ci); m != nil && strings.HasPrefix(m.Name(), "Skip") && m.Name() != "Skipped" {
+					skips = true
+				}
+			}
+		})
+		if !skips {
+			continue
+		}
+		n++
+		bad := ""
+		ssax.Instrs(fn, func(ins ssa.Instruction) {
+			cl, ok := ins.(*ssa.Call)
+			if !ok {
+				return
+			}
+			if _, sent, isE := isErrorsIs(cl); isE && sent != "ErrNotImplemented" && bad == "" {
+				bad = sent
+				if bad == "" {
+					bad = "a non-sentinel value"
+				}
+				bad += " at " + p.Pos(cl.Pos())
+			}
+		})
+		c.Check(bad == "", "R20.17", fname(fn)+"|skips-for-ErrNotImplemented-only", p.Pos(fn.Pos()), "the only sentinel consulted is ErrNotImplemented",
+			fmt.Sprintf("%s can skip the subtest and consults errors.Is(err, %s): a file system that answers an exercised operation with that error kind is no longer failed by the error-kind assertion that follows the skip helper — the subtest is skipped, which counts as a pass", fname(fn), bad))
+	}
+	if n == 0 {
+		c.Hard("anchor: functions of fstest that call tb.Skip")
+	}
+}
+
+// r20ReadIntoFreshBuffers (R20.18): every byte slice the suite hands to Read / ReadAt of a handle of the file system
+// under test (directly or through the helper it is given) originates from make([]byte, n), never from a conversion of
+// a string: a buffer that already holds the expected bytes makes the comparison after the read pass when the read
+// stores nothing (the write was dropped, the read failed and its results were ignored).
+func r20ReadIntoFreshBuffers(c *core.Ctx, p *load.Program) {
+	fromString := func(v ssa.Value) bool {
+		if cv, ok := v.(*ssa.Convert); ok {
+			if b, ok := cv.X.Type().Underlying().(*types.Basic); ok && b.Info()&types.IsString != 0 {
+				return true
+			}
+		}
+		return false
+	}
+	for _, fn := range pkgFuncs(p, "fstest") {
+		ord := ordinals{}
+		ssax.Instrs(fn, func(ins ssa.Instruction) {
+			ci, ok := ins.(ssa.CallInstruction)
+			if !ok {
+				return
+			}
+			m := ssax.InvokeMethod(ci)
+			if m == nil || (m.Name() != "Read" && m.Name() != "ReadAt") || len(ci.Common().Args) == 0 {
+				return
+			}
+			buf := ci.Common().Args[0]
+			if sl, ok := buf.Type().Underlying().(*types.Slice); !ok || !types.Identical(sl.Elem(), types.Typ[types.Byte]) {
+				return
+			}
+			key := fname(fn) + "|" + ord.next("read-buffer")
+			c.Check(!originIs(buf, fromString), "R20.18", key, p.Pos(ins.Pos()), "the buffer read into does not come from a string conversion",
+				fmt.Sprintf("%s reads into a buffer that was made from a string (the bytes it wrote or expects): if the read stores nothing — the write was dropped by the file system under test, or the read failed and its results are ignored — the buffer still holds the expected bytes and the comparison passes", fname(fn)))
+		})
+	}
 }
